@@ -78,3 +78,18 @@ Print Assumptions C11_session_rejected_original.
 Print Assumptions C11_session_check_only.
 Print Assumptions C11_session_without_reset_refuted.
 Print Assumptions C11_session_without_reset_clobbers.
+
+(* ---- known finding `move-assertion-error` (known_findings.json): with --with-experimental-move the strategy's own
+   assertion fails right after a move was accepted, so the run ends with an exception - a traceback and a non-zero
+   process status - although a candidate was accepted (and the file holds that accepted candidate).  C09 exempts the
+   experimental move from "no internal error"; C11's status clause has no such exemption.  The concrete model of the
+   move (Model/PairsMove.v) reproduces the failure: *)
+From Lithium Require Import Minimize PairsMove MoveWitness.
+Theorem C11_move_assertion_known_finding :
+  exists verdict tc0 w,
+    run (pairs_move default_cfg (fun _ => 0)) verdict 200%nat tc0 (content tc0) = Aborted (Some AssertionError) w /\
+    (exists k p f, In (ETest k p f Yes) (chron w) /\ 1 < k) /\
+    w_file w = last_accepted (chron w) (content tc0) /\ w_file w <> content tc0.
+Proof. exact move_assertion_witness. Qed.
+
+Print Assumptions C11_move_assertion_known_finding.
